@@ -152,6 +152,56 @@ def _path_multi(eq, lhs, pts, u, usrc):
         pyr.reset_pyrates()
 
 
+def _vec_vars(case):
+    import numpy as np
+    arr = lambda l: np.array([[float(Fr(x)) for x in r] for r in l] if isinstance(l[0], list) else [float(Fr(x)) for x in l], dtype=np.float64)
+    d = {k: arr(v) for k, v in case["vecs"].items()}
+    d.update({k: arr(v) for k, v in case["mats"].items()})
+    return d
+
+
+def _vec_a(case):
+    import numpy as np
+    from pyrates.backend.parser import parse_equations
+    from pyrates.backend.computegraph import ComputeGraph
+    from pyr import fracs
+    cg = ComputeGraph(backend='default')
+    mk = lambda a: {'vtype': 'constant', 'value': np.asarray(a, dtype=np.float64), 'shape': np.asarray(a).shape, 'dtype': 'float64'}
+    args = {f'n/op/{k}': mk(v) for k, v in _vals(case["scal"]).items()}
+    args.update({f'n/op/{k}': mk(v) for k, v in _vec_vars(case).items() if k != 'x'})
+    x0 = np.array([float(Fr(v)) for v in case["x0"]], dtype=np.float64)
+    n = case["n"]
+    args['n/op/x'] = {'vtype': 'state_var', 'value': x0 if n else np.float64(x0[0]), 'shape': (n,) if n else (), 'dtype': 'float64'}
+    parse_equations(equations=[(case["eq"], 'n/op')], equation_args=args, cg=cg, def_shape=())
+    r = np.asarray(cg.eval_node(cg.var_updates['DEs']['x']), dtype=np.float64).reshape(-1)
+    assert r.shape == (max(n, 1),), r.shape
+    return fracs(r)
+
+
+def _vec_b(case):
+    import numpy as np
+    from pyrates import OperatorTemplate, NodeTemplate, CircuitTemplate
+    import pyr
+    pyr.reset_pyrates()
+    try:
+        n = case["n"]
+        x0 = np.array([float(Fr(v)) for v in case["x0"]], dtype=np.float64)
+        variables = {'x': {'vtype': 'state_var', 'dtype': 'float', 'shape': (n,), 'value': x0} if n else f'output({x0[0]})'}
+        variables.update(_vals(case["scal"]))
+        variables.update({k: {'vtype': 'constant', 'dtype': 'float', 'shape': v.shape, 'value': v} for k, v in _vec_vars(case).items()})
+        op = OperatorTemplate(name='op', equations=[case["eq"]], variables=variables)
+        c = CircuitTemplate(name='c', nodes={'A': NodeTemplate(name='nA', operators=[op])})
+        func, args, names, smap = _compile(c)
+        r = np.array(func(*args), dtype=np.float64).reshape(-1)
+        pos = smap['A/op/x']
+        sel = r[pos[0]:pos[1]] if isinstance(pos, (tuple, list)) else r[int(np.asarray(pos).reshape(-1)[0])]
+        sel = np.asarray(sel).reshape(-1)
+        assert sel.shape == (max(n, 1),), sel.shape
+        return pyr.fracs(sel)
+    finally:
+        pyr.reset_pyrates()
+
+
 def _guard(f, *a, **k):
     import pyr
     try:
@@ -193,6 +243,8 @@ def impl(case):
         return [_guard(lambda it=it: ComputeGraph._process_func_call(expr=it[0], func=it[1], replacement=it[2])) for it in case["items"]]
     if kind == "call":
         return _guard(_path_b, case["eq"], case["lhs"], case["pts"], case["vecs"])
+    if kind == "vec":
+        return {"a": _guard(_vec_a, case), "b": _guard(_vec_b, case)}
     if kind == "support":
         import numpy as np
         r = _guard(_path_b, case["eq"], case["lhs"], case["pts"])
@@ -204,8 +256,10 @@ def impl(case):
 POOL = ["r", "rr", "r_in", "r_in0", "m_in2", "weight", "x_v1", "a_in0", "source", "r_v1", "k", "tau", "v_th", "x_v2", "rate",
         "rr_v1", "in0", "w_in"]
 LHS = ["x", "x", "x", "x", "v", "u", "r", "rr", "x_v1", "z", "r_in"]
-NUMS = {"2": ["2", "2.0", "2.", "2.00"], "3": ["3", "3.0"], "0.5": ["0.5", "0.50"], "0.25": ["0.25", "0.250"], "1.5": ["1.5", "1.50"],
-        "4": ["4", "4.", "4.0"], "10": ["10", "10.0"], "0.125": ["0.125"], "1": ["1", "1.0"], "8": ["8", "8.0"], "0.75": ["0.75"]}
+NUMS = {"2": ["2", "2.0", "2.", "2.00", "2e0", "20e-1", "0.2e1"], "3": ["3", "3.0", "30E-1"], "0.5": ["0.5", "0.50", ".5", "5e-1", "0.05e+1"],
+        "0.25": ["0.25", "0.250", ".25", "2.5e-1", "25e-2"], "1.5": ["1.5", "1.50", "15e-1", "0.15E1"],
+        "4": ["4", "4.", "4.0", "0.4e1"], "10": ["10", "10.0", "1e1", "1E+1", "0.1e2"], "0.125": ["0.125", "125e-3", ".125", "1.25e-1"],
+        "1": ["1", "1.0", "1e0"], "8": ["8", "8.0", "80e-1"], "0.75": ["0.75", "7.5e-1", ".75"]}
 DIVS = ["2", "4", "8", "0.5", "0.25"]
 LVL = {"add": 0, "sub": 0, "mul": 1, "div": 1, "neg": 2, "pow": 3, "num": 4, "var": 4, "call": 4}
 
@@ -280,6 +334,8 @@ def spell(e, rng, st, lvl=0):
         body = rng.choice(NUMS.get(e[1], [e[1]])) if st["numvar"] else e[1]
     elif k == "var":
         body = e[1]
+        if st.get("uplus") and lvl <= 2 and rng.random() < 0.12:
+            body = "+" + sp() + body              # unary plus
     elif k == "neg":
         body = "-" + sp() + spell(e[1], rng, st, 2)
     elif k == "pow":
@@ -306,7 +362,7 @@ def spell(e, rng, st, lvl=0):
 
 STYLES = [dict(blanks=[0, 0, 1], pow=["^"], extra=0.0, reorder=False, numvar=False),
           dict(blanks=[0, 0, 1, 2, 3], pow=["**"], extra=0.5, reorder=False, numvar=True),
-          dict(blanks=[0, 1, 1], pow=["^", "**"], extra=0.2, reorder=True, numvar=True)]
+          dict(blanks=[0, 1, 1], pow=["^", "**"], extra=0.2, reorder=True, numvar=True, uplus=True)]
 
 
 def dy_val(rng, p2=False):
@@ -431,7 +487,8 @@ def gen_call_case(rng):
     elif cls < 0.78:
         # recorded finding F1: helper call inside a divisor (w holds powers of two so that a repaired code is compared exactly)
         vecs["w"] = [dy_val(rng, True) for _ in range(4)]
-        s = rng.choice([f"{a}/index(w,{j})", f"({a} + {b})/index(w, {j})*{c}", f"x - {a}/index(w,{j})"])
+        s = rng.choice([f"{a}/index(w,{j})", f"({a} + {b})/index(w, {j})*{c}", f"x - {a}/index(w,{j})", f"{a}/index(w,{j})^2 + {b}",
+                        f"{a}/(index(w,{j})*index(w,{i}))", f"{a}/index(w,{j}) + {b}/index(w,{j})"])
         pts = []
         for _ in range(4):
             p = {nm: dy_val(rng) for nm in names}; p[lhs] = dy_val(rng); pts.append(p)
@@ -444,6 +501,24 @@ def gen_call_case(rng):
     for _ in range(4):
         p = {nm: dy_val(rng) for nm in names}; p[lhs] = dy_val(rng); pts.append(p)
     return dict(kind="call", lhs=lhs, eq=f"{lhs}' = {s}", s=s, pts=pts, vecs=vecs, expect=expect)
+
+
+def gen_vec_case(rng):
+    """index helpers on small vectors and matrices, vector-valued right-hand sides (component-wise meaning in Lang.eval)"""
+    p, q = rng.sample(["r", "k", "weight", "x_v1"], 2)
+    a, b, i, j, i2 = rng.randint(0, 1), rng.randint(0, 2), rng.randint(0, 2), rng.randint(0, 2), rng.randint(0, 2)
+    c1 = rng.choice(["2.5e-1", ".5", "2", "+1.5", "1e0"])
+    s, n = rng.choice([
+        (f"index_range(v, {a}, {a + 2})*{p} - x", 2), (f"index_range( v,{a},{a + 3} ) ** 2 * {c1} - x*{q}", 3),
+        (f"index_axis(v)*{p} + w", 4), (f"index_2d(A, {i}, {j})*{p} - x", 0), (f"index_axis(A, {j}, 1)*{q} - x", 3),
+        (f"index(A, {i}) + x*{p}", 3), (f"index_range(v,{a},{a + 2}) + index_range(w, {b}, {b + 2})*index(v,{i})", 2),
+        (f"v*{p} - w^2", 4), (f"index_2d(A,{i},{j})*index_range(v,1,4) - index(A,{i2})", 3),
+        (f"{c1}*index_2d( A , {i} , {j} )^2 - ({p} - index_2d(A,{j},{i}))*{q}", 0), (f"+index(A,{i})*{c1} - index_axis(A, {j}, 1)", 3)])
+    scal = {p: dy_val(rng), q: dy_val(rng)}
+    vecs = {"v": [dy_val(rng) for _ in range(4)], "w": [dy_val(rng) for _ in range(4)]}
+    mats = {"A": [[dy_val(rng) for _ in range(3)] for _ in range(3)]}
+    x0 = [dy_val(rng) for _ in range(max(n, 1))]
+    return dict(kind="vec", eq=f"x' = {s}", s=s, n=n, scal=scal, vecs=vecs, mats=mats, x0=x0)
 
 
 def gen_support_case(rng):
@@ -482,6 +557,18 @@ Definition ok_items (l : list item) : bool := forallb ok_item l.
 Definition value_of (it : item) : option Qc := let '(env, venv, s, _) := it in eval_string (envq env) (venvq venv) (s2l s).
 Definition same_value (l : list item) : bool :=
   match l with [] => true | it :: r => forallb (fun j => oq_eqb (value_of it) (value_of j)) r end.
+(* vec item: scalars, vectors, matrices, string, per component the values the real code returned *)
+Definition vitem := (list (string * Qc) * list (string * list Qc) * list (string * list (list Qc)) * string * list (list Qc))%type.
+Fixpoint ok_comps (env : list (str * Qc)) (venv : list (str * list Qc)) (menv : list (str * list (list Qc))) (s : str) (k : nat)
+  (l : list (list Qc)) : bool :=
+  match l with
+  | [] => true
+  | exp :: r => let v := eval_ctx (mkctx env venv menv k) s in
+                match v with None => false | Some _ => forallb (fun x => oq_eqb v (Some x)) exp end && ok_comps env venv menv s (S k) r
+  end.
+Definition ok_vitem (it : vitem) : bool :=
+  let '(env, venv, menv, s, exp) := it in
+  ok_comps (envq env) (venvq venv) (map (fun p => (s2l (fst p), snd p)) menv) (s2l s) 0 exp.
 Definition ok_lhs (p : string * (string * string * bool * string)) : bool :=
   let '(s, (lhs, key, de, rhs)) := p in eqn_eqb (classify (s2l s)) (s2l lhs) (s2l key) de (s2l rhs).
 Definition raises_lhs (s : string) : bool := match classify (s2l s) with CRaises => true | _ => false end.
@@ -625,6 +712,29 @@ def compare_call(ctx, cases, outs, tag):
     return sorted(bad), g
 
 
+def compare_vec(ctx, cases, outs, tag):
+    bad, terms, idx = [], [], []
+    for i, (c, o) in enumerate(zip(cases, outs)):
+        if isinstance(o, dict) and ("a" not in o):
+            bad.append(i); continue
+        if isinstance(o["a"], dict) or isinstance(o["b"], dict):
+            bad.append(i); continue
+        n = max(c["n"], 1)
+        venv = dict(c["vecs"])
+        env = dict(c["scal"])
+        if c["n"]:
+            venv["x"] = c["x0"]
+        else:
+            env["x"] = c["x0"][0]
+        menv = clist([f"({cstr(k)}, {clist([clist([cq(x) for x in r]) for r in m])})" for k, m in sorted(c["mats"].items())])
+        exp = clist([clist([cq(o["a"][k]), cq(o["b"][k])]) for k in range(n)])
+        terms.append(f"({cqs(env)}, {cvecs(venv)}, {menv}, {cstr(c['s'])}, {exp})"); idx.append(i)
+    if terms:
+        l = coq_lists(ctx, f"c05_vec_{tag}", f"Definition cases : list vitem := {clist(terms)}.\n", ["mismatches ok_vitem cases"])
+        bad += [idx[j] for j in l[0]]
+    return sorted(bad)
+
+
 def coq_reading(ctx, strings, tag):
     """fully parenthesised text of the Coq reading of each string (None when outside the language)"""
     body = "\n".join(f"Eval vm_compute in (match parse (s2l {cstr(s)}) with Some e => string_of_list_ascii (print full e) | None => \"?\" end)."
@@ -694,7 +804,7 @@ def check(ctx):
     pr = proof_gate(ctx, NEEDS)
     problem = proof_problem(pr)
     quick = ctx.tier == "quick"
-    n_expr, n_lhs, n_surg, n_call, n_sup = (130, 12, 12, 40, 16) if quick else (3000, 150, 150, 600, 200)
+    n_expr, n_lhs, n_surg, n_call, n_sup, n_vec = (130, 12, 12, 40, 16, 40) if quick else (3000, 150, 150, 600, 200, 600)
     if problem:
         n_expr *= 3
     if ctx.replay:
@@ -703,7 +813,7 @@ def check(ctx):
     else:
         cases = (load_corpus("C05") + [gen_expr_case(ctx.rng) for _ in range(n_expr)] + [gen_lhs_case(ctx.rng) for _ in range(n_lhs)]
                  + [gen_surg_case(ctx.rng) for _ in range(n_surg)] + [gen_call_case(ctx.rng) for _ in range(n_call)]
-                 + [gen_support_case(ctx.rng) for _ in range(n_sup)])
+                 + [gen_support_case(ctx.rng) for _ in range(n_sup)] + [gen_vec_case(ctx.rng) for _ in range(n_vec)])
     outs = run_impl(ctx, "c05", "impl", cases, per_case_timeout=120)
     K = lambda k: [i for i, c in enumerate(cases) if c["kind"] == k]
     bad_spec, bad_impl, crashed, guard_viol = [], [], [], {}
@@ -759,6 +869,14 @@ def check(ctx):
         for j in b:
             bad_spec.append(ic[j]); bad_impl.append(ic[j])
         ctx.note(f"call: {len(ic)} equations with index()/no_op() helpers; disagreements {len(b)} (of which violating guard no_call_in_divisor: {sum(1 for j in b if j in g)})")
+    # --- index helpers on vectors / matrices, vector-valued right-hand sides, both paths
+    iv = [i for i in K("vec") if i not in crashed]
+    if iv:
+        b = compare_vec(ctx, [cases[i] for i in iv], [outs[i] for i in iv], "main")
+        for j in b:
+            bad_spec.append(iv[j]); bad_impl.append(iv[j])
+        ctx.note(f"vec: {len(iv)} equations with index/index_range/index_axis/index_2d on vectors and matrices "
+                 f"({sum(max(cases[i]['n'], 1) for i in iv)} components x 2 paths); disagreements {len(b)}")
     # --- support: values never decide (tolerance); an exception does (it is exact)
     isu = [i for i in K("support") if i not in crashed]
     if isu:
@@ -768,6 +886,10 @@ def check(ctx):
         off = compare_support(ctx, [cases[i] for i in isu], [outs[i] for i in isu], "main") if isu else []
         ctx.note(f"support stream (tolerance 1e-12, values not deciding): {len(isu)} transcendental expressions, {len(off)} outside the tolerance"
                  + (f": {[cases[isu[j]]['eq'] for j in off[:3]]}" if off else "") + f"; raised {len(raised)}")
+    drop = [g for g in os.environ.get("VERIF_C05_DROP_GUARD", "").split(",") if g]     # validation of a candidate repair: class no longer excused
+    if drop:
+        guard_viol = {i: [g for g in gs if g not in drop] for i, gs in guard_viol.items()}
+        ctx.note(f"guards dropped for this run: {drop}")
     bad_spec = sorted(set(bad_spec)); bad_impl = sorted(set(bad_impl)); crashed = sorted(set(crashed))
     conclude(ctx, cases=cases, impl_out=outs, bad_spec=bad_spec, bad_impl=bad_impl, crashed=crashed, problem=problem, guard_viol=guard_viol,
              spec_name="Lang.parse + Lang.eval on the same string (and Lang.classify / Lang.process_func_call for the string handling)",
@@ -778,7 +900,7 @@ def check(ctx):
     ex = [cases[i] for i in K("expr")]
     nt = {canon(c["ast"]) for c in ex if nontrivial(c)}
     hist = dict(expr=len(ex), lhs_equations=sum(len(cases[i]["eqs"]) for i in K("lhs")), surgery_calls=sum(len(cases[i]["items"]) for i in K("surg")),
-                helper_call_equations=len(K("call")), support=len(K("support")),
+                helper_call_equations=len(K("call")), support=len(K("support")), vector_helper_equations=len(K("vec")),
                 depth={d: sum(1 for c in ex if depth_of(tuple_ast(c["ast"])) == d) for d in range(1, 5)},
                 generated_looking_pairs=sum(1 for c in ex if any(n + "_v1" in c["names"] + [c["lhs"]] for n in c["names"] + [c["lhs"]])),
                 lhs_names=sorted({c["lhs"] for c in ex}))
@@ -794,4 +916,4 @@ def check(ctx):
                                  "sympy (sympify, printing, lambdify) is opaque: tied only by this run"],
                    assumptions=["deciding stream: polynomial expressions, division by powers of two, natural exponents 2..3",
                                 "transcendental functions and the constants pi, E: support stream with tolerance 1e-12, never deciding",
-                                "exponent notation (1e-3), `.5`, comparison operators, index_range/index_axis/index_2d, x(t-d) are outside Lang.parse"])
+                                "comparison operators and x(t-d) are outside Lang.parse; index_range/index_axis/index_2d only with literal indices on vectors / matrices"])
